@@ -22,10 +22,13 @@ func RepoDir() string {
 }
 
 type Member struct {
-	Kind     string    `json:"kind"` // "field", "component", "group"
-	Name     string    `json:"name"`
-	Required bool      `json:"required,omitempty"`
-	Members  []*Member `json:"members,omitempty"`
+	Kind     string `json:"kind"` // "field", "component", "group"
+	Name     string `json:"name"`
+	Required bool   `json:"required,omitempty"`
+	// ReqAttr, when not empty, is how the required attribute is spelled in the XML instead of Y/N
+	// ("absent": no attribute at all; anything else verbatim). Only the exact text Y means required.
+	ReqAttr string    `json:"req_attr,omitempty"`
+	Members []*Member `json:"members,omitempty"`
 }
 
 type Container struct {
@@ -73,6 +76,17 @@ func (tm *TypeMap) Cast(fixType string) (string, bool) {
 		}
 	}
 	return out, ok
+}
+
+// reqAttr renders the required attribute of a member.
+func reqAttr(m *Member) string {
+	switch m.ReqAttr {
+	case "":
+		return " required='" + yn(m.Required) + "'"
+	case "absent":
+		return ""
+	}
+	return " required='" + esc(m.ReqAttr) + "'"
 }
 
 func attr(se xml.StartElement, name string) string {
@@ -211,10 +225,10 @@ func yn(b bool) string {
 func writeMembers(b *bytes.Buffer, ms []*Member, indent string) {
 	for _, m := range ms {
 		if len(m.Members) == 0 && m.Kind != "group" {
-			fmt.Fprintf(b, "%s<%s name='%s' required='%s'/>\n", indent, m.Kind, esc(m.Name), yn(m.Required))
+			fmt.Fprintf(b, "%s<%s name='%s'%s/>\n", indent, m.Kind, esc(m.Name), reqAttr(m))
 			continue
 		}
-		fmt.Fprintf(b, "%s<%s name='%s' required='%s'>\n", indent, m.Kind, esc(m.Name), yn(m.Required))
+		fmt.Fprintf(b, "%s<%s name='%s'%s>\n", indent, m.Kind, esc(m.Name), reqAttr(m))
 		writeMembers(b, m.Members, indent+"    ")
 		fmt.Fprintf(b, "%s</%s>\n", indent, m.Kind)
 	}
@@ -334,7 +348,7 @@ func cloneC(c *Container) *Container {
 func cloneM(ms []*Member) []*Member {
 	var out []*Member
 	for _, m := range ms {
-		out = append(out, &Member{Kind: m.Kind, Name: m.Name, Required: m.Required, Members: cloneM(m.Members)})
+		out = append(out, &Member{Kind: m.Kind, Name: m.Name, Required: m.Required, ReqAttr: m.ReqAttr, Members: cloneM(m.Members)})
 	}
 	return out
 }
